@@ -42,13 +42,16 @@ ApplyDelta(bc, cw, cd) ==
         D == {cd[i] : i \in 1..Len(cd)}
     IN [k \in (DOMAIN bc \cup DOMAIN W) \ D |-> IF k \in DOMAIN W THEN W[k] ELSE bc[k]]
 
+\* the logged pointer lies within the running tape (a pointer outside it is never adopted: it is a `bounds` failure)
+LogPcOk(v, ev) == ev.pc >= 0 /\ ev.pc <= Len(TT(v).code)
+
 \* the implementation's outcome adopted for one instruction whose data
 \* primitive the harness could not supply (counted as a resync by the driver)
 Adopt(v, ev) ==
     LET a == [v EXCEPT !.stack = SubSeq(v.stack, 1, ev.keep) \o ev.pushed,
                        !.bc = ApplyDelta(v.bc, ev.cw, ev.cd),
                        !.exc = IF ev.exc = "" THEN "none" ELSE ev.exc]
-    IN [a EXCEPT !.tapes[Tid(v)].pc = ev.pc]
+    IN [a EXCEPT !.tapes[Tid(v)].pc = IF LogPcOk(v, ev) THEN ev.pc ELSE TT(v).pc]
 
 Expected(v, ev) == IF ev.h.adopt /\ StepKind(v) = "exec" THEN Adopt(v, ev) ELSE Step(v, HintOf(ev))
 
@@ -70,7 +73,8 @@ Failing(v, w, ev) ==
     \cup (IF ~ev.sdelta THEN {} ELSE {"strkeys"})
     \cup (IF ev.k # "op" \/ ev.h.adopt \/ w.obs.alloc = ev.alloc THEN {} ELSE {"alloc"})
     \cup (IF StackBounded(w) /\ ItemBounded(w) /\ ev.hwi <= w.cfg.maxItems /\ ev.hws <= w.cfg.maxItemSize THEN {} ELSE {"limits"})
-    \cup (IF PcInRange(w) /\ DepthBounded(w) /\ LoopBounded(w) THEN {} ELSE {"bounds"})
+    \cup (IF PcInRange(w) /\ DepthBounded(w) /\ LoopBounded(w) /\ (w.frames = <<>> \/ Len(w.frames) # ev.d \/ LogPcOk(w, ev))
+          THEN {} ELSE {"bounds"})
     \cup (IF ReturnScoped(w) THEN {} ELSE {"retscope"})
     \cup (IF w.frames = <<>> \/ (TT(w).plug = ev.hplug /\ TT(w).contr = ev.hcontr) THEN {} ELSE {"config"})
     \cup (IF (ev.k = "end") = (w.status # "run") THEN {} ELSE {"end"})
@@ -96,7 +100,7 @@ TraceInit ==
 \* examined (a named action, counted; at most MaxResync per trace).  The disagreement
 \* itself has already been reported.
 MaxResync == 3
-CanResync(v, ev) == /\ ev.k = "op" /\ StepKind(v) = "exec" /\ ev.d = Len(v.frames) /\ nres < MaxResync
+CanResync(v, ev) == /\ ev.k = "op" /\ StepKind(v) = "exec" /\ ev.d = Len(v.frames) /\ nres < MaxResync /\ LogPcOk(v, ev)
 Resync(v, ev) ==
     LET a == Adopt(v, ev)
         b == [a EXCEPT !.ret = ev.ret, !.obs.plug = ev.plug, !.r = <<>>, !.p = <<>>, !.x = <<>>]
